@@ -271,3 +271,53 @@ Proof.
     + cbn [andb negb]. cbn [apply_at]. rewrite Es. f_equal. rewrite map_map. apply map_ext_in.
       intros [k|] Hin; [|reflexivity]. f_equal. apply IH; [assumption|]. now apply Hk.
 Qed.
+
+(* ---- reading the position map: before / after / containing --------------------------------------------------- *)
+
+(* a span that starts strictly after the point moves rigidly: dln lines, and dcol on the point's line *)
+Lemma spec_after lno colo dln dcol tail head l c el ec :
+  pos_le l c el ec = true -> pos_lt lno colo l c = true ->
+  offset_spec lno colo dln dcol tail head (l, c, el, ec)
+  = (l + dln, (if l =? lno then c + dcol else c), el + dln, (if el =? lno then ec + dcol else ec)).
+Proof.
+  unfold pos_le, pos_lt, offset_spec, move_point. intros H1 H2.
+  repeat match goal with
+     | |- context [if ?c then _ else _] => let E := fresh "E" in destruct c eqn:E
+     end; try (exfalso; lia); repeat match goal with |- (_, _) = (_, _) => apply f_equal2 end; lia.
+Qed.
+
+(* a container (offset-mode: tail=True, head=False) whose start is at or before the point and whose end is at or
+   after it keeps its start and its end follows the change - it grows or shrinks by exactly the change *)
+Lemma spec_container lno colo dln dcol l c el ec :
+  pos_le l c lno colo = true -> pos_le lno colo el ec = true -> pos_lt l c el ec = true ->
+  offset_spec lno colo dln dcol TTrue TFalse (l, c, el, ec)
+  = (l, c, el + dln, (if el =? lno then ec + dcol else ec)).
+Proof.
+  unfold pos_le, pos_lt, offset_spec, move_point, start_moves_at, end_moves_at, is_fwd. cbn [tri_eqb]. intros H1 H2 H3.
+  repeat match goal with
+     | |- context [if ?c then _ else _] => let E := fresh "E" in destruct c eqn:E
+     end; try (exfalso; lia); repeat match goal with |- (_, _) = (_, _) => apply f_equal2 end; lia.
+Qed.
+
+(* a child (offset-mode second phase: tail=False, head=True) that ends at or before the point stays, one that starts
+   at or after it moves rigidly - the gap belongs to the container, never to the child *)
+Lemma spec_child_before lno colo dln dcol l c el ec :
+  pos_lt l c el ec = true -> pos_le el ec lno colo = true ->
+  offset_spec lno colo dln dcol TFalse TTrue (l, c, el, ec) = (l, c, el, ec).
+Proof.
+  unfold pos_le, pos_lt, offset_spec, move_point, start_moves_at, end_moves_at, is_fwd. cbn [tri_eqb]. intros H1 H2.
+  repeat match goal with
+     | |- context [if ?c then _ else _] => let E := fresh "E" in destruct c eqn:E
+     end; try (exfalso; lia); repeat match goal with |- (_, _) = (_, _) => apply f_equal2 end; lia.
+Qed.
+
+Lemma spec_child_after lno colo dln dcol l c el ec :
+  pos_lt l c el ec = true -> pos_le lno colo l c = true ->
+  offset_spec lno colo dln dcol TFalse TTrue (l, c, el, ec)
+  = (l + dln, (if l =? lno then c + dcol else c), el + dln, (if el =? lno then ec + dcol else ec)).
+Proof.
+  unfold pos_le, pos_lt, offset_spec, move_point, start_moves_at, end_moves_at, is_fwd. cbn [tri_eqb]. intros H1 H2.
+  repeat match goal with
+     | |- context [if ?c then _ else _] => let E := fresh "E" in destruct c eqn:E
+     end; try (exfalso; lia); repeat match goal with |- (_, _) = (_, _) => apply f_equal2 end; lia.
+Qed.
